@@ -168,6 +168,7 @@ func TestC20Requested(t *testing.T) {
 		proto := c.Network[:3]
 		bindIP := net.ParseIP(c.Address)
 		nw := simnet.New()
+		nw.ModelReusePort = true
 		nw.LogOff = true
 		sr := &scriptRand{next: fixedAnswer(c.Answer)}
 		g, relay := c.build(nw, sr)
@@ -309,6 +310,7 @@ func observeOddAddr(r *rep.Report, lc localClasses) {
 		for _, proto := range []string{"udp", "tcp"} {
 			for _, port := range []int{0, 50001} {
 				nw := simnet.New()
+				nw.ModelReusePort = true
 				nw.LogOff = true
 				sr := &scriptRand{next: fixedAnswer(0)}
 				var g turn.RelayAddressGenerator
